@@ -9,6 +9,7 @@ import (
 	"os/exec"
 	"path/filepath"
 	"runtime/debug"
+	"runtime/pprof"
 	"sort"
 	"strconv"
 	"strings"
@@ -236,6 +237,12 @@ func WorkerMain(prop, tier string, shard, nshards int, out string, budget time.D
 	c := &Ctx{Prop: prop, Tier: tier, Seed: seed, Shard: shard, NShards: nshards, Deadline: time.Now().Add(budget), Args: args,
 		distinct: map[string]map[uint64]struct{}{}, maxViol: 3}
 	c.res = Result{Counters: map[string]int64{}, Distinct: map[string][]uint64{}, Notes: map[string]string{}, Outcomes: map[string]map[string]int64{}}
+	if pf := os.Getenv("VERIF_CPUPROFILE"); pf != "" && shard == 0 {
+		if f, err := os.Create(pf); err == nil {
+			_ = pprof.StartCPUProfile(f)
+			defer pprof.StopCPUProfile()
+		}
+	}
 	func() {
 		defer func() {
 			if r := recover(); r != nil {
@@ -343,6 +350,10 @@ func CoordinatorMain(prop, tier string, extra map[string]string) int {
 			}
 			cmd := exec.Command(self, args...)
 			cmd.Env = append(os.Environ(), "GOMAXPROCS=2", "VERIF_SCRATCH="+scratch)
+			if os.Getenv("GOGC") == "" {
+				// pogreb allocates a 256 KiB segment table per Open; a lazier collector more than doubles throughput
+				cmd.Env = append(cmd.Env, "GOGC=400")
+			}
 			outb, err := cmd.CombinedOutput()
 			data, rerr := os.ReadFile(out)
 			if rerr != nil {
